@@ -53,7 +53,7 @@ def judge(mode: str, cfg: dict, oracle: Oracle, rec: dict) -> dict[str, bool]:
     asked = {k: x for k, x in oracle.memo.items() if k[1] in ("min", "max")}
     nozero = all(x != 0 for x in asked.values())
     physical = all(not (x < 0 and asked.get((k[0], "max"), -1) > 0) for k, x in asked.items() if k[1] == "min")
-    maxvals = [x for k, x in asked.items() if k[1] == "max"]
+    maxvals = [x for k, x in asked.items() if k[1] == "max" and x <= 0]
     noties = len(set(maxvals)) == len(maxvals)
     f = out.get("f")
     H = out.get("H")
@@ -67,6 +67,15 @@ def judge(mode: str, cfg: dict, oracle: Oracle, rec: dict) -> dict[str, bool]:
     # C02
     v["HeightInBounds"] = (not sel) or (HMIN <= H <= HMAX)
     v["CapRespected"] = (not (sel and mode != "RW" and cfg["cap"])) or n_sel <= cfg["cap"]
+    # listed finding F16: cap applied as "last index below the cap" on a list whose counts are not monotone (bi-zoned)
+    f16 = False
+    if not v["CapRespected"] and mode == "ZD":
+        lst = cfg["lists"][f[0] - 1]
+        allowed = [i for i, c in enumerate(lst) if c < cfg["cap"]]
+        f16 = bool(allowed) and (f[1] - 1) < allowed[-1]
+    v["CapRespectedK"] = v["CapRespected"] or f16
+    v["F16_seen"] = f16
+    v["_cap_equal"] = bool(sel and mode != "RW" and cfg["cap"] and n_sel == cfg["cap"])
     nondeg = nozero and (mode == "RW" or ((cfg["cap"] == 0 or cfg["cap"] >= 2) and cfg["lists"][0][0] == 1))
     v["OnlyValueError"] = (not (nondeg and out["k"] == "raise")) or out["type"] == "ValueError"
     allpos = bool(asked) and all(x > 0 for x in asked.values())
